@@ -776,6 +776,21 @@ where
             ck.judge(if inplace { "map.in_place_visit_output" } else { "map.visit_output" }, site, ok, || ("every call's result present in the output, nothing else".into(), format!("foreign={foreign} uses={:?} out {}", seen, fmt_c(&ot.c))));
         }
     }
+    // ---- a function that fails on EVERY coordinate and names the coordinate it was given: both fallible forms stop at
+    // the first coordinate of the traversal, so both report that one (whatever order an impl calls the function in)
+    if n >= 1 {
+        let pos_of = |c: Coord<T>| -> usize { (0..n).find(|&i| ceq(tr.args[i], c)).unwrap_or(usize::MAX) };
+        let fe = |c: Coord<T>| -> Result<Coord<T>, usize> { Err(pos_of(c)) };
+        if let Some(res) = gcall!(ck, "map.try_err_first", site, g.try_map_coords(&fe)) {
+            let ok = matches!(res, Err(0));
+            ck.judge("map.try_err_first", site, ok, || ("Err(0): the first coordinate of the traversal is the first to fail".into(), match &res { Ok(_) => "Ok(..)".to_string(), Err(e) => format!("Err({e})") }));
+        }
+        let mut h = g.clone();
+        if let Some(Some(res)) = gcall!(ck, "map.try_in_place_err_first", site, h.tip(&fe)) {
+            let ok = matches!(res, Err(0));
+            ck.judge("map.try_in_place_err_first", site, ok, || ("Err(0): the first coordinate of the traversal is the first to fail".into(), format!("{:?}", res)));
+        }
+    }
     // ---- fallible function failing at position k
     let ks = fail_positions(n, &tr.starts);
     for (ki, &k) in ks.iter().enumerate() {
